@@ -5,6 +5,21 @@
 #include "bee2/core/tm.h"
 #include "bee2/crypto/btok.h"
 #include "bee2/crypto/bpki.h"
+#include "bee2/core/rng.h"
+
+/* the hidden global generator (btokCVCWrap/Iss call rngStepR when rngIsValid()):
+   created on simulated entropy in a third of the runs */
+extern err_t (*rngVerifESRead)(size_t* read, void* buf, size_t count, const char* source);
+void rngVerifReset(void);
+void utilVerifReset(void);
+static sk_rng es_rng;
+static err_t es_hook(size_t* read, void* buf, size_t count, const char* source)
+{
+	(void)source;
+	sk_bytes(&es_rng, buf, count);
+	*read = count;
+	return ERR_OK;
+}
 
 static const size_t PL[4] = { 24, 32, 48, 64 };
 
@@ -37,7 +52,7 @@ void run_cvc(uint64_t seed, const sk_mask* mask, sk_result* out)
 	unsigned depth, i, nval, v;
 	size_t n;
 	err_t code;
-	int chain_ok = 1;
+	int chain_ok = 1, with_rng;
 	(void)mask;
 	sk_rng_seed(&r, seed);
 	sk_heap_reset(sk_u64(&r));
@@ -45,7 +60,18 @@ void run_cvc(uint64_t seed, const sk_mask* mask, sk_result* out)
 	depth = 1 + sk_below(&r, 3);
 	memset(A, 0, sizeof(A));
 	out->nops = 0;
+	with_rng = sk_chance(&r, 1, 3);
+	rngVerifReset(), utilVerifReset();
+	rngVerifESRead = es_hook;
+	sk_rng_seed(&es_rng, sk_u64(&r));
 	sk_heap_arm();
+	if (with_rng)
+	{
+		if (rngCreate(0, 0) != ERR_OK)
+			with_rng = 0;
+		else
+			sk_count("probe.cvc_global_rng_present", 1);
+	}
 	/* ---- root: self-signed */
 	{
 		actor_t* a = &A[0];
@@ -253,8 +279,12 @@ void run_cvc(uint64_t seed, const sk_mask* mask, sk_result* out)
 			}
 		}
 	}
+	if (with_rng)
+		rngClose();
 	sk_heap_disarm();
-	if (sk_heap_live())
+	/* with the global generator created, util.c's destructor list (one block)
+	   lives until process exit */
+	if (sk_heap_live() > (with_rng ? 1 : 0))
 		sk_violate(out, "leak:cvc", "%ld block(s) (%lu octets) left after CVC operations", sk_heap_live(), (unsigned long)sk_heap_live_bytes());
 	if (sk_heap_overrun())
 		sk_violate(out, "overrun:cvc", "canary damaged");
